@@ -366,8 +366,8 @@ pub fn random_session(r: &mut StdRng, th: usize, steps: usize) -> Vec<Value> {
                 }
                 let text = random_layout(r, &ts);
                 if let Some(ast) = s.parse(text.as_bytes(), &mut events) {
-                    let names: [&[u8]; 4] = [b"i", b"s", b"nosuch", b"\xff\xfe"];
-                    let nm = names[r.random_range(0..4)];
+                    let names: [&[u8]; 6] = [b"i", b"s", b"nosuch", b"\xff\xfe", b"i\x00", b"\x00"];
+                    let nm = names[r.random_range(0..6)];
                     s.uses(&ast, &text, nm, &mut events);
                     let wrong = r.random_range(0..6) == 0;
                     s.compile_and_match(ast, &text, wrong, &mut events);
@@ -375,8 +375,9 @@ pub fn random_session(r: &mut StdRng, th: usize, steps: usize) -> Vec<Value> {
             }
             5 => {
                 // error inputs: NUL inside, invalid UTF-8, garbage
-                let inputs: [&[u8]; 6] = [b"i == 1 \x00", b"s == \"a\x00b\" oops", b"\xff\xfe == 1", b"i ==", b"nosuch == 1", b"s == \"\xc3\x28\""];
-                let t = inputs[r.random_range(0..6)];
+                let inputs: [&[u8]; 10] = [b"i == 1 \x00", b"s == \"a\x00b\" oops", b"\xff\xfe == 1", b"i ==", b"nosuch == 1", b"s == \"\xc3\x28\"",
+                                           b"i == 1\x00", b"i == 1 ||\n\x00i == 2", b"\x00", b"i == 1 and\n\x00\x00"];
+                let t = inputs[r.random_range(0..10)];
                 let _ = s.parse(t, &mut events);
             }
             6 => {
@@ -440,20 +441,25 @@ pub fn replay_ffiseq(v: &Value) -> (Value, Vec<String>) {
             ffi::wirefilter_add_type_field_to_scheme(&mut b, name.as_ptr().cast(), name.len(), ffi::CType::from(Type::Int));
             let scheme = ffi::wirefilter_build_scheme(b);
             let mut snaps = Vec::new();
-            for h in hist.iter() {
+            let mut wrong: Vec<String> = Vec::new();
+            for (k, h) in hist.iter().enumerate() {
                 if h["th"].as_u64().unwrap() as usize == t {
                     match h["call"].as_str().unwrap() {
                         "ok" => {
                             let src = "i == 1";
                             let r = ffi::wirefilter_parse_filter(&scheme, src.as_ptr().cast(), src.len());
-                            assert!(r.ast.is_some());
+                            if r.ast.is_none() {
+                                wrong.push(format!("call {}: parsing `i == 1` failed", k + 1));
+                            }
                         }
                         "fail" => {
                             let mut src: Vec<u8> = b"i == 1 ".to_vec();
                             let x: Vec<u8> = serde_json::from_value(h["text"].clone()).unwrap();
                             src.extend_from_slice(&x);
                             let r = ffi::wirefilter_parse_filter(&scheme, src.as_ptr().cast(), src.len());
-                            assert!(r.ast.is_none());
+                            if r.ast.is_some() {
+                                wrong.push(format!("call {}: the C API parsed {:?}, which the Rust API rejects", k + 1, String::from_utf8_lossy(&src)));
+                            }
                         }
                         _ => ffi::wirefilter_clear_last_error(),
                     }
@@ -462,11 +468,16 @@ pub fn replay_ffiseq(v: &Value) -> (Value, Vec<String>) {
                 snaps.push(last_error());
                 barrier.wait();
             }
-            snaps
+            (snaps, wrong)
         }));
     }
-    let logs: Vec<Vec<Value>> = handles.into_iter().map(|h| h.join().unwrap()).collect();
     let mut diffs = Vec::new();
+    let mut logs: Vec<Vec<Value>> = Vec::new();
+    for h in handles {
+        let (snaps, wrong) = h.join().unwrap();
+        logs.push(snaps);
+        diffs.extend(wrong);
+    }
     for (k, h) in hist.iter().enumerate() {
         for t in 0..nth {
             let exp = &h["after"][t];
